@@ -129,6 +129,8 @@ var c12Bases = []string{
 	"http://h/r/a/b/c/root.json",
 	// containing documents whose name has no extension (RFC 3986 5.2.3 drops the last segment of the base whatever it looks like)
 	"file:///r/doc", "http://h/v2/api-docs", "https://h:8443/a.b/c/spec",
+	// a local file named with an authority
+	"file://localhost/r/a/root.json",
 }
 
 // c12Refs enumerates the in-scope references: up to maxSegs directory segments followed by a file name.
@@ -398,7 +400,7 @@ var rewrites = []rewrite{
 		if strings.Contains(s, "#") {
 			return s, false
 		}
-		return s + r.pick([]string{"#", "#/definitions/x", "#frag"}), true
+		return s + r.pick([]string{"#", "#/definitions/x", "#frag", "#/", "#/definitions/", "#a/b/"}), true
 	}},
 	{"query", func(s string, r *rng) (string, bool) {
 		// for files only
